@@ -89,6 +89,9 @@ struct Inner {
     /// Replicas whose root slots were hit by a sub-sector tear (sticky for the run).
     subsector_root_tear: BTreeSet<usize>,
     /// Crash-state exploration: images to take at every sync inside a commit window.
+    /// Fail the pread with this index (counted from arming) with EIO, once.
+    read_fault_in: Option<u32>,
+    read_fault_fired: bool,
     explore: u32,
     explore_budget: u32,
     explore_rng: Rng,
@@ -117,6 +120,8 @@ impl SimFs {
                 mutating_calls: BTreeMap::new(),
                 in_commit_window: BTreeSet::new(),
                 subsector_root_tear: BTreeSet::new(),
+                read_fault_in: None,
+                read_fault_fired: false,
                 explore,
                 explore_budget: 600,
                 explore_rng: Rng::derive(seed, "explore"),
@@ -141,6 +146,20 @@ impl SimFs {
 
     pub fn take_hard_error(&self, rep: usize) -> bool {
         self.inner.borrow_mut().hard_error.remove(&rep)
+    }
+
+    /// Arms a single read error: the `n`-th pread from now fails with EIO.
+    pub fn arm_read_fault(&self, n: u32) {
+        let mut i = self.inner.borrow_mut();
+        i.read_fault_in = Some(n);
+        i.read_fault_fired = false;
+    }
+
+    /// Disarms; returns whether the fault fired.
+    pub fn disarm_read_fault(&self) -> bool {
+        let mut i = self.inner.borrow_mut();
+        i.read_fault_in = None;
+        std::mem::take(&mut i.read_fault_fired)
     }
 
     pub fn take_snapshots(&self, rep: usize) -> Vec<Snapshot> {
@@ -558,6 +577,15 @@ impl SimSys for SimFs {
         }
         let mut i = self.inner.borrow_mut();
         let Some((file, _)) = i.file_of(fd) else { return Some(Err(EBADF)) };
+        if let Some(n) = i.read_fault_in {
+            if n == 0 {
+                i.read_fault_in = None;
+                i.read_fault_fired = true;
+                bump(&mut i, "fault.eio_read");
+                return Some(Err(EIO));
+            }
+            i.read_fault_in = Some(n - 1);
+        }
         let (eintr, short) = (i.faults.eintr_pct, i.faults.short_pct);
         if eintr > 0 && i.rng.below(100) < eintr {
             bump(&mut i, "fault.eintr_read");
